@@ -1106,3 +1106,27 @@ Proof.
   destruct (H I) as [->| ->]; [repeat split|].
   rewrite build_empties_grid, build_empties_pos, build_empties_mask. repeat split.
 Qed.
+
+(* the two halves of move_one_of_step under the names of DESIGN.md *)
+Lemma move_one_of_member c s a pa cells sl he out s' l :
+  wf c -> Agree c s -> pos s a = Some pa -> cells <> [] ->
+  step c s (MoveToOneOf a cells sl he out) = (s', Ok l) ->
+  exists offered landing,
+    In offered cells /\ torus_adj c offered = Some landing /\ pos s' a = Some landing /\
+    (forall b, b <> a -> pos s' b = pos s b).
+Proof.
+  intros Hwf Ha Hp Hne Hst.
+  destruct (move_one_of_step c s a pa cells sl he out s' l Hwf Ha Hp Hne Hst) as (o & ld & H1 & H2 & H3 & H4 & _).
+  exists o, ld. repeat split; assumption.
+Qed.
+
+Lemma closest_is_nearest c s a pa cells he out s' l :
+  wf c -> Agree c s -> pos s a = Some pa -> cells <> [] ->
+  step c s (MoveToOneOf a cells SelClosest he out) = (s', Ok l) ->
+  exists landing, pos s' a = Some landing /\
+    forall q q', In q cells -> torus_adj c q = Some q' -> dist2 c landing pa <= dist2 c q' pa.
+Proof.
+  intros Hwf Ha Hp Hne Hst.
+  destruct (move_one_of_step c s a pa cells SelClosest he out s' l Hwf Ha Hp Hne Hst) as (o & ld & _ & _ & H3 & _ & H5).
+  exists ld. split; [exact H3|]. apply H5. reflexivity.
+Qed.
